@@ -22,6 +22,8 @@ in-place copy_, `.data =` and load_state_dict, also between two forwards without
 import math, itertools, json
 import time
 from .common import *
+from . import c10_gen
+from .c10_gen import regenerate      # setup.sh regenerates Gen/SamplerGen.v through this name
 
 TEMPS = [0.05, 0.1, 0.5, 1.0, 2.0, 5.0, 20.0]
 PRECS = (2, 3, 4, 5, 6, 7, 8, 16)
@@ -824,7 +826,9 @@ def _init_worker():
 
 def run(ctx):
     torch = _torch()
+    gen_rejected = c10_gen.regenerate(ctx)
     built = ctx.build()
+    ctx.extra['generated_model'] = c10_gen.status(gen_rejected, built)
     keep = probe_keep()
     ctx.extra['update_keeps_sampler_when_args_are_None'] = keep
     fixc = probe_comb_eval()
@@ -893,6 +897,9 @@ def run(ctx):
             todo = [r for r in results if r.get('init') is not None]
             exprs = [trace_expr(r, keep, fixc) for r in todo]
             vals = ctx.coq_eval_sharded('traces', ['Plinio.Model.Sampler'], '', exprs, shard=250)
+            gvals = ctx.coq_eval_sharded('gtraces', c10_gen.IMPORTS, '', c10_gen.gen_exprs(exprs), shard=250)     # the model GENERATED from the samplers' source on this run
+            ctx.corr += len(gvals)
+            mism += c10_gen.differences(exprs, vals, gvals)
             for r, (bad, sel) in zip(todo, vals):
                 ctx.corr += 1 if r['spec'].get('fam') == 'closure' and r['steps'] else len(r['steps'])
                 margins = dict(r['margins'])
@@ -913,6 +920,10 @@ def run(ctx):
             # whole models driven through the public update paths: one trace per selector
             nex = [(r, n_, rec, e) for r in nres for n_, rec, e in c10_net.net_exprs(r, keep)]
             nvals = ctx.coq_eval_sharded('nettraces', ['Plinio.Model.Sampler'], '', [x[3] for x in nex], shard=200) if nex else []
+            if nex:
+                gnv = ctx.coq_eval_sharded('gnettraces', c10_gen.IMPORTS, '', c10_gen.gen_exprs([x[3] for x in nex]), shard=200)
+                ctx.corr += len(gnv)
+                mism += c10_gen.differences([x[3] for x in nex], nvals, gnv)
             for (r, n_, rec, e), (bad, sel) in zip(nex, nvals):
                 ctx.corr += len(rec['steps'])
                 margins = dict(rec['margins'])
@@ -932,6 +943,10 @@ def run(ctx):
                     sexprs.append('run_sample true KMps %s %s %s [] %s' % (coq(q_tab(s['tab'])), coq(TOL), coq(q_sampler(s['state'])), coq(c30(s['theta']))))
                     smeta.append((r['spec'], s['q']))
             svals = ctx.coq_eval_sharded('msamples', ['Plinio.Model.Sampler'], '', sexprs, shard=250) if sexprs else []
+            if sexprs:
+                gsv = ctx.coq_eval_sharded('gmsamples', c10_gen.IMPORTS, '', c10_gen.gen_exprs(sexprs), shard=250)
+                ctx.corr += len(gsv)
+                mism += c10_gen.differences(sexprs, svals, gsv)
             for (sp, qn), (ok, am) in zip(smeta, svals):
                 ctx.corr += 1
                 if not ok:
@@ -964,7 +979,9 @@ def run(ctx):
                         'two model switches are set by probing the implementation once per run (both variants are covered by the theorems): keep_opts (does update_softmax_options keep the sampler when gumbel/disable_sampling are None) and comb_eval_argmax']
 
     if not ctx.violations:
-        if not built:
+        if c10_gen.report(ctx, gen_rejected, built):      # 'translator-rejected ... no-failing-input-found'
+            pass
+        elif not built:
             ctx.violation('proof-broken', {'theorems': [o[0] for o in ctx.obligations if not o[1]], 'log': getattr(ctx, 'broken_log', '')[-3000:]}, 'Props/C10.v no longer checks', no_input=True)
         elif not model_ok:
             ctx.violation('model-eval-broken', {'notes': ctx.notes}, 'the model could not be evaluated', no_input=True)
